@@ -158,6 +158,93 @@ def sender_run(payloads, keys, schedule, accepts, factory=False):
     return bytes(sock.sent), eff, [b.ts[i].exc for i in range(len(payloads))], [b.ts[i].result for i in range(len(payloads))]
 
 
+def program_run(programs, keys, schedule, accepts):
+    """thread i sends its frames one after the other (send_binary / ping / pong by turns); returns wire, effective schedule."""
+    import threading
+    import websocket
+    b = Baton()
+    with library_locks(b):
+        ws = websocket.WebSocket()
+        sock = simnet.SimSocket([], accepts=accepts)
+        ws.sock = BatonSocket(sock, b)
+        ws.connected = True
+        kq = {i: list(ks) for i, ks in enumerate(keys)}
+
+        def key(n):
+            t = b.by_ident.get(threading.get_ident())
+            return kq[t.tid].pop(0)
+        ws.set_mask_key(key)
+
+        def worker(ps):
+            for op, p in ps:
+                if op == 2:
+                    ws.send_binary(p)
+                elif op == 9:
+                    ws.ping(p)
+                else:
+                    ws.pong(p)
+        for i, ps in enumerate(programs):
+            b.spawn(i, (lambda ps=ps: worker(ps)))
+        eff = b.run(schedule)
+    return bytes(sock.sent), eff, [b.ts[i].exc for i in range(len(programs))]
+
+
+def run_programs(ctx):
+    """threads that each send SEVERAL frames (C12_programs): whole frames, each thread's own order kept."""
+    rnd = ctx.rng("programs")
+    cases = []
+    for sched in itertools.product((0, 1), repeat=(12 if ctx.thorough() else 10)):
+        cases.append(([[(2, b"A"), (9, b"")], [(2, b"bc")]], [2], list(sched)))
+    n = 1200 if ctx.thorough() else 250
+    for it in range(n):
+        k = rnd.randint(2, 4)
+        programs = [[(rnd.choice([2, 2, 9, 10]), rx.payload(rnd, rnd.choice([0, 1, 5, 20, 125]), "bin")) for _ in range(rnd.randint(0, 3))]
+                    for _ in range(k)]
+        acc = [rnd.choice([1, 2, 3, 7, 50, 1000]) for _ in range(rnd.randint(1, 4))]
+        if it % 2:
+            sched = [rnd.randrange(k) for _ in range(rnd.randint(0, 120))]
+        else:
+            sched = []
+            while len(sched) < 120:
+                sched += [rnd.randrange(k)] * rnd.randint(1, 9)
+        cases.append((programs, acc, sched))
+    lines, metas = [], []
+    for programs, acc, sched in cases:
+        keys = [[bytes([0x10 + i, 0x20 + j, 0x30 + i, 0x40 + j]) for j in range(len(ps))] for i, ps in enumerate(programs)]
+        wire, eff, excs = program_run(programs, keys, sched, acc)
+        frames = [[simnet.srv_frame(op, p, 1, 0, kk) for (op, p), kk in zip(ps, ks)] for ps, ks in zip(programs, keys)]
+        lines.append("m-threads-prog " + ".".join(",".join(f.hex() for f in fs) or "-" for fs in frames) + " " +
+                     (".".join(map(str, eff)) or "-") + " " + ".".join(map(str, acc)))
+        metas.append((programs, acc, eff, wire, frames, excs))
+    mo = common.run_driver_parallel(lines)
+    for l, m, (programs, acc, eff, wire, frames, excs) in zip(lines, mo, metas):
+        mw, morder, mpcs = m.split("|")
+        ctx.traces_vs_impl += 1
+        if mw != common.summarize(wire) or set(mpcs) - {"d"}:
+            ctx.diverge("threads:programs", {"op": l[:300]}, m[:200], common.summarize(wire)[:200])
+        switches = sum(1 for a, b_ in zip(eff, eff[1:]) if a != b_)
+        ctx.case(key=l, nontrivial=switches > 1 and sum(len(p) for p in programs) > 1,
+                 cls=f"programs:threads={len(programs)}:frames={min(sum(len(p) for p in programs), 6)}:switches={'0-1' if switches <= 1 else '2-5' if switches <= 5 else '6+'}")
+        inp = {"op": "threads-programs", "programs": [[(op, p.hex()[:20]) for op, p in ps] for ps in programs], "accepts": acc, "schedule": eff[:120]}
+        # oracle: the wire is a merge of the threads' frame sequences (whole frames, each thread's order kept)
+        rest, idx = wire, [0] * len(frames)
+        progress = True
+        while rest and progress:
+            progress = False
+            for i, fs in enumerate(frames):
+                if idx[i] < len(fs) and rest.startswith(fs[idx[i]]):
+                    rest = rest[len(fs[idx[i]]):]
+                    idx[i] += 1
+                    progress = True
+                    break
+        if rest or any(idx[i] != len(fs) for i, fs in enumerate(frames)):
+            ctx.violate("whole-frames-in-some-serial-order", "interleaved-pieces-or-thread-order-lost", inp,
+                        "a merge of the threads' whole frames, each thread's own order kept", wire.hex()[:200],
+                        size=len(eff) + sum(len(f) for fs in frames for f in fs))
+        if any(excs):
+            ctx.violate("whole-frames-in-some-serial-order", "send-raised", inp, "no exception", str(excs), size=len(eff))
+
+
 def run_senders(ctx):
     rnd = ctx.rng("senders")
     cases = []
@@ -460,10 +547,11 @@ def run(ctx):
     ctx.rule = ("(a) every composition of the frame length as an accept pattern for frames of 6..10 bytes, sampled patterns for 125..100000 "
                 "bytes; (b) 2 threads x every schedule of length 9 (11), 3 threads x every schedule of length 6 (8), random 2-4 threads with "
                 "random payloads/patterns/schedules, co-simulated with the Lean interleaving model; (c) 2-3 receiver threads, fragmented "
-                "messages with control frames, random schedules, the Lean receivers model driven by the observed lock-acquisition order; (d) one receiver answering 1-3 pings while 1-2 threads send under short writes; (a') the short-write sends again on an object equipped with a dispatcher. non-trivial = more than one piece / more than one context switch")
+                "messages with control frames, random schedules, the Lean receivers model driven by the observed lock-acquisition order; (d) one receiver answering 1-3 pings while 1-2 threads send under short writes; (a') the short-write sends again on an object equipped with a dispatcher; (b') 2-4 threads each sending 0-3 frames (send_binary / ping / pong), 2 threads x every schedule of length 10 (12), co-simulated with the Lean programs model at yield-point granularity; the library's own locks are scheduled (none assigned by the harness). non-trivial = more than one piece / more than one context switch")
     run_short_writes(ctx)
     run_eagain(ctx)
     run_senders(ctx)
+    run_programs(ctx)
     run_receivers(ctx)
     run_frame_receivers(ctx)
     run_mixed(ctx)
